@@ -812,6 +812,50 @@ def eval_expr(f, e, leaf, depth=0):
     return None
 
 
+def loop_trips(f, lp, bound_name, counts=range(0, 5), extra_env=None):
+    """For a `for (T i = c0; <cond>; ++i)` loop: {N: (number of iterations, first index)} with the variable `bound_name` set to N, by folding the conjuncts of the
+    condition that mention the bound (other conjuncts are taken as true).  None when the loop is not of that form."""
+    if lp is None or lp['k'] != 'ForStmt' or lp.get('cond') is None or lp.get('inc') is None or lp.get('init') is None:
+        return None
+    ivar = None
+    for x in f.walk(lp['init']):
+        if f.stmts[x]['k'] == 'DeclStmt' and f.stmts[x]['decls']:
+            ivar = f.stmts[x]['decls'][0]
+    inc = f.s(lp['inc'])
+    if ivar is None or 'init' not in ivar or inc is None or inc['k'] != 'UnaryOperator' or inc.get('op') != '++':
+        return None
+    start = (f.s(ivar['init']) or {}).get('cv')
+    if start is None:
+        return None
+
+    def conj(e):
+        st = f.s(f.strip_casts(e))
+        if st is not None and st['k'] == 'ParenExpr':
+            return conj(st['ch'][0])
+        if st is not None and st['k'] == 'BinaryOperator' and st.get('op') == '&&':
+            return conj(st['ch'][0]) + conj(st['ch'][1])
+        return [e]
+    is_bound = bound_name if callable(bound_name) else (lambda sx: sx['k'] == 'DeclRefExpr' and sx.get('n') == bound_name)
+    cs = [c for c in conj(lp['cond']) if any(is_bound(f.stmts[x]) for x in f.walk(c))]
+    if not cs:
+        return None
+    out = {}
+    for N in counts:
+        env = dict(extra_env or {})
+        i, t = start, 0
+        while t < 16:
+            env[ivar['n']] = i
+            v = [eval_expr(f, c, lambda sx: N if is_bound(sx) else (env.get(sx.get('n')) if sx['k'] == 'DeclRefExpr' else None)) for c in cs]
+            if any(x is None for x in v):
+                return None
+            if not all(v):
+                break
+            i += 1
+            t += 1
+        out[N] = (t, start)
+    return out
+
+
 def edge_rels(f, cond, k):
     """both orientations of the relation established on edge k of cond: [(lhs, op, rhs), (rhs, swapped op, lhs)] — empty if not a comparison"""
     r = edge_relation(f, cond, k)
